@@ -47,3 +47,7 @@ def run(repo, res, tier):
     # values of the caller's substitute classes keep their class inside sets and sequences: no per-element conversion
     from .. import hookrules as _hk4
     _hk4.rule_h4(repo, res)
+    # the lexer's preservation states follow the grammar's tables: what opens and closes a quoted string, a units
+    # expression and a based integer, and everything between is kept verbatim (explicit-state, per grammar)
+    from .. import lexsim as _ls9
+    _ls9.rule_preserve_kind(repo, res)
